@@ -107,6 +107,7 @@ package hotline
 //@ func (ffif *FlatFileInformationFork) DataSize() (size []byte)
 //@   requires ffif != nil && len(ffif.Name) <= 65535 && len(ffif.Comment) <= 65535
 //@   ensures len(size) == 4 && fresh(size) && u32(bytes(size)) == len(old(wire_InfoFork(ffif)))
+//@   modifies nothing
 //@   nopanic
 
 //@ func (ffif *FlatFileInformationFork) Size() (size [4]byte)
@@ -117,6 +118,7 @@ package hotline
 //@ func (ffif *FlatFileInformationFork) ReadNameSize() (size []byte)
 //@   requires ffif != nil && len(ffif.Name) <= 65535
 //@   ensures len(size) == 2 && fresh(size) && u16(bytes(size)) == len(ffif.Name)
+//@   modifies nothing
 //@   nopanic
 
 //@ func (ffif *FlatFileInformationFork) SetComment(comment []byte) (err error)
@@ -245,16 +247,23 @@ package hotline
 //@ func (bits *AccessBitmap) IsSet(i int) (r bool)
 //@   requires bits != nil && 0 <= i && i < 64
 //@   ensures r == bit(bytes(bits), i)
+//@   modifies nothing
 //@   nopanic
 
 //@ func (bits *AccessBitmap) Set(i int)
 //@   requires bits != nil && 0 <= i && i < 64
 //@   ensures bit(bytes(bits), i)
 //@   ensures forall(j, 0, 64, j != i ==> bit(bytes(bits), j) == old(bit(bytes(bits), j)))
+//@   modifies *bits
 //@   nopanic
 
 //@ func (cc *ClientConn) Authorize(access int) (r bool)
 //@   requires cc != nil && 0 <= access && access < 64
 //@   ensures cc.Account == nil ==> !r
 //@   ensures cc.Account != nil ==> r == bit(bytes(cc.Account.Access), access)
+//@   nopanic
+
+//@ func NewAccount(login string, name string, password string, access AccessBitmap) (r *Account)
+//@   ensures r != nil && fresh(r) && r.Access == access && r.Login == login && r.Name == name
+//@   modifies nothing
 //@   nopanic
